@@ -71,6 +71,9 @@ type zzFactory struct {
 	next    int
 	faults  bool
 	partial bool // some assign call returned addresses together with an error
+	loadOK  bool
+	load4   []netip.Addr
+	load6   []netip.Addr
 	cloud4  map[netip.Addr]bool // addresses the cloud holds for the ENI (ghost)
 	cloud6  map[netip.Addr]bool
 	eniLive bool
@@ -192,7 +195,10 @@ func (f *zzFactory) DeleteNetworkInterface(eniID string) error {
 	return nil
 }
 func (f *zzFactory) LoadNetworkInterface(mac string) ([]netip.Addr, []netip.Addr, error) {
-	return nil, nil, errZZCloud
+	if !f.loadOK {
+		return nil, nil, errZZCloud
+	}
+	return f.load4, f.load6, nil
 }
 func (f *zzFactory) GetAttachedNetworkInterface(preferTrunkID string) ([]*daemon.ENI, error) {
 	return nil, errZZCloud
